@@ -210,6 +210,7 @@ fn synthetic(on: bool) -> Option<SyntheticData> {
         (vec!["m"], Identifier::from("m_sd")),
             (vec!["p"], Identifier::from("p_sd")),
             (vec!["q"], Identifier::from("q_sd")),
+            (vec!["nu"], Identifier::from("nu_sd")),
             (vec!["ref"], Identifier::from("ref_sd")),
     ])))
 }
